@@ -39,7 +39,7 @@ def check(ctx, tier):
     W.report(ctx, tk, "C11.j", fs)
     tk.purity("C11.p", [ctx.func(q) for q in ['hashtable.HashTable.__getitem__', 'hashtable.HashTable.contains', 'hashtable.HashTable.__add__', 'hashtable.HashTable.__eq__', 'hashtable.HashTable.items', 'hashtable.HashTable.to_dict', 'hashtable.HashTable._get_indices', 'hashtable.HashTable.__array_function__', 'hashtable.HashSet.contains', 'hashtable.zeros_like', 'hashtable.ones_like']], "the operation does not write into its operands' buffers", content_only=True)
     from .. import hazards as _hz, scopes as _sc
-    _hz.generic(ctx, tk, "C11.z", _sc.scope(tk, "C11", depth=2))
+    _hz.generic(ctx, tk, "C11.z", _sc.scope(tk, "C11", depth=1))
     return {}
 
 
